@@ -5,6 +5,205 @@ From GB Require Import Base.Prelude Base.GoSem Base.DecText Base.GoFmt Base.Byte
 From GB Require Import Model.Cell Proofs.TransEquivCellBytesDefs.
 From GBGen Require Import Consts TransCellBytes.
 Open Scope Z_scope.
+Ltac Zify.zify_post_hook ::= Z.to_euclidean_division_equations.
+
+Ltac unfold_types :=
+  cbv [K_TypeBit K_TypeBlob K_TypeDate K_TypeDateTime K_TypeDateTime2 K_TypeDecimal K_TypeDouble K_TypeEnum K_TypeFloat
+       K_TypeGeometry K_TypeInt24 K_TypeJSON K_TypeLong K_TypeLongBlob K_TypeLongLong K_TypeMediumBlob K_TypeNewDate
+       K_TypeNewDecimal K_TypeNull K_TypeSet K_TypeShort K_TypeString K_TypeTime K_TypeTime2 K_TypeTimestamp
+       K_TypeTimestamp2 K_TypeTiny K_TypeTinyBlob K_TypeVarString K_TypeVarchar K_TypeYear] in *.
+
+Lemma le24_u32 a b c : 0 <= a < 256 -> 0 <= b < 256 -> 0 <= c < 256 ->
+  u32 (u32 (a + go_shl u32 b 8) + go_shl u32 c 16) = a + 256 * (b + 256 * (c + 256 * 0)).
+Proof.
+  intros. unfold go_shl, u32. change (2 ^ 8) with 256. change (2 ^ 16) with 65536.
+  rewrite !Z.mod_small by (rewrite ?Z.mod_small by lia; lia). lia.
+Qed.
+
+Lemma i32_neg_range x : 2147483648 <= x < 4294967296 -> i32 x = x - 4294967296.
+Proof.
+  intros H. unfold i32, sx, u32. change (2 ^ (32 - 1)) with 2147483648. change (2 ^ 32) with 4294967296.
+  rewrite Z.mod_small by lia. destruct (x <? 2147483648) eqn:E; lia.
+Qed.
+
+Lemma time_val a b c : 0 <= a < 256 -> 0 <= b < 256 -> 0 <= c < 256 ->
+  (if Z.land c 128 >? 0
+   then Ok (i32 (u32 (u32 (u32 (a + go_shl u32 b 8) + go_shl u32 c 16) + 4278190080)))
+   else Ok (i32 (i32 (a + go_shl i32 b 8) + go_shl i32 c 16)))
+  = Ok (if 0 <? band (shr (a + 256 * (b + 256 * (c + 256 * 0))) 16) 128
+        then i32 (a + 256 * (b + 256 * (c + 256 * 0)) + 255 * 2 ^ 24)
+        else a + 256 * (b + 256 * (c + 256 * 0))).
+Proof.
+  intros Ha Hb Hc. unfold band, shr.
+  replace ((a + 256 * (b + 256 * (c + 256 * 0))) / 2 ^ 16) with c by (change (2 ^ 16) with 65536; lia).
+  rewrite Z.gtb_ltb. destruct (0 <? Z.land c 128); f_equal.
+  - rewrite le24_u32 by assumption. change (255 * 2 ^ 24) with 4278190080.
+    unfold i32 at 1. unfold u32 at 1 2. rewrite Z.mod_mod by lia. reflexivity.
+  - unfold go_shl. change (2 ^ 8) with 256. change (2 ^ 16) with 65536.
+    rewrite (i32_small (b * 256)) by lia. rewrite (i32_small (c * 65536)) by lia.
+    rewrite (i32_small (a + b * 256)) by lia. rewrite i32_small by lia. lia.
+Qed.
+
+Lemma time_val_bound a b c : 0 <= a < 256 -> 0 <= b < 256 -> 0 <= c < 256 ->
+  - 16777216 <= (if 0 <? band (shr (a + 256 * (b + 256 * (c + 256 * 0))) 16) 128
+        then i32 (a + 256 * (b + 256 * (c + 256 * 0)) + 255 * 2 ^ 24)
+        else a + 256 * (b + 256 * (c + 256 * 0))) < 16777216.
+Proof.
+  intros Ha Hb Hc. destruct (0 <? _); [|lia].
+  change (255 * 2 ^ 24) with 4278190080. rewrite i32_neg_range by lia. lia.
+Qed.
+
+Lemma time_tail val : - 16777216 <= val < 16777216 ->
+  (do (v_sign, v_val0) <- (if val <? 0 then Ok ([45], i32 (- val)) else Ok ([], val));
+   Ok (v_sign ++ fmt_0d 2 (i32 (v_val0 ÷ 10000)) ++ [58] ++ fmt_0d 2 (i32 (Z.rem v_val0 10000 ÷ 100)) ++
+       [58] ++ fmt_0d 2 (Z.rem v_val0 100), 3))
+  = Ok ((if val <? 0
+         then 45 :: fmt_clock (Z.abs val ÷ 10000) (Z.rem (Z.abs val) 10000 ÷ 100) (Z.rem (Z.abs val) 100)
+         else fmt_clock (Z.abs val ÷ 10000) (Z.rem (Z.abs val) 10000 ÷ 100) (Z.rem (Z.abs val) 100)), 3).
+Proof.
+  intros H. destruct (val <? 0) eqn:E; cbn [bind].
+  - rewrite (i32_small (- val)) by lia. replace (Z.abs val) with (- val) by lia.
+    rewrite !i32_small by lia. reflexivity.
+  - replace (Z.abs val) with val by lia. rewrite !i32_small by lia. reflexivity.
+Qed.
+
+(* ---- big-endian reads byte by byte ---- *)
+Fixpoint at_be (d : bytes) (p k n : nat) (acc : Z) : res Z :=
+  match n with O => Ok acc | S m => do a <- at_ d (p + k); at_be d p (S k) m (acc * 256 + a) end.
+
+Lemma slice_be_acc n : forall d p k acc, (0 < n)%nat ->
+  (do s <- slice d (p + k) n; Ok (be_dec_acc acc s)) = at_be d p k n acc.
+Proof.
+  induction n as [|n IH]; intros d p k acc Hn; [lia|].
+  rewrite slice_S. cbn [at_be]. destruct (at_cases d (p + k)) as [(b & E & L)|[E L]]; rewrite E; cbn [bind]; [|reflexivity].
+  replace (S (p + k)) with (p + S k)%nat by lia.
+  destruct n as [|n].
+  - rewrite slice_0 by lia. reflexivity.
+  - rewrite <- IH by lia. destruct (slice d (p + S k) (S n)); reflexivity.
+Qed.
+
+Lemma be_at_at_be n d p k : (0 < n)%nat -> be_at d (p + k) n = at_be d p k n 0.
+Proof. intros H. rewrite <- slice_be_acc by exact H. reflexivity. Qed.
+Lemma be_at_at_be0 n d p : (0 < n)%nat -> be_at d p n = at_be d p 0 n 0.
+Proof. intros H. rewrite <- be_at_at_be by exact H. rewrite Nat.add_0_r. reflexivity. Qed.
+
+Lemma go_be_exact s n : length s = n -> go_be s n = Ok (be_dec s).
+Proof.
+  intros H. unfold go_be. destruct (Nat.leb_spec n (length s)); [|lia]. subst n. rewrite firstn_all. reflexivity.
+Qed.
+Lemma slice_be d a n : (do s <- slice d a n; go_be s n) = be_at d a n.
+Proof.
+  unfold be_at. destruct (slice d a n) as [s| |] eqn:E; cbn [bind]; try reflexivity.
+  apply go_be_exact. eapply slice_length; exact E.
+Qed.
+Lemma go_slice_be_bind {B} d a b n (k : Z -> res B) a' : a = Z.of_nat a' -> b = Z.of_nat a' + Z.of_nat n ->
+  (do s <- go_slice d a b; do v <- go_be s n; k v) = (do v <- be_at d a' n; k v).
+Proof.
+  intros -> ->. rewrite <- (slice_be d a' n). rewrite go_slice_nat. rewrite bind_assoc. reflexivity.
+Qed.
+
+Lemma frac_equiv d pos k meta (txt : bytes) : wf_bytes d -> Z.of_nat pos < 2 ^ 62 -> (k <= 8)%nat ->
+  res_sim
+    (if meta =? 1 then
+       do t <- go_idx d (i64 (Z.of_nat pos + Z.of_nat k));
+       Ok (txt ++ ([46] ++ fmt_0d 1 (i64 (Z.quot t 10))), Z.of_nat k + 1)
+     else if meta =? 2 then
+       do t <- go_idx d (i64 (Z.of_nat pos + Z.of_nat k));
+       Ok (txt ++ ([46] ++ fmt_0d 2 t), Z.of_nat k + 1)
+     else if meta =? 3 then
+       do t <- go_idx d (i64 (Z.of_nat pos + Z.of_nat k)); do t' <- go_idx d (i64 (Z.of_nat pos + (Z.of_nat k + 1)));
+       Ok (txt ++ ([46] ++ fmt_0d 3 (i64 (Z.quot (i64 (go_shl i64 t 8 + t')) 10))), Z.of_nat k + 2)
+     else if meta =? 4 then
+       do t <- go_idx d (i64 (Z.of_nat pos + Z.of_nat k)); do t' <- go_idx d (i64 (Z.of_nat pos + (Z.of_nat k + 1)));
+       Ok (txt ++ ([46] ++ fmt_0d 4 (i64 (go_shl i64 t 8 + t'))), Z.of_nat k + 2)
+     else if meta =? 5 then
+       do t <- go_idx d (i64 (Z.of_nat pos + Z.of_nat k)); do t' <- go_idx d (i64 (Z.of_nat pos + (Z.of_nat k + 1)));
+       do t'' <- go_idx d (i64 (Z.of_nat pos + (Z.of_nat k + 2)));
+       Ok (txt ++ ([46] ++ fmt_0d 5 (i64 (Z.quot (i64 (i64 (go_shl i64 t 16 + go_shl i64 t' 8) + t'')) 10))), Z.of_nat k + 3)
+     else if meta =? 6 then
+       do t <- go_idx d (i64 (Z.of_nat pos + Z.of_nat k)); do t' <- go_idx d (i64 (Z.of_nat pos + (Z.of_nat k + 1)));
+       do t'' <- go_idx d (i64 (Z.of_nat pos + (Z.of_nat k + 2)));
+       Ok (txt ++ ([46] ++ fmt_0d 6 (i64 (i64 (go_shl i64 t 16 + go_shl i64 t' 8) + t''))), Z.of_nat k + 3)
+     else Ok (txt, Z.of_nat k))
+    (do (fr, n) <- frac_suffix d (pos + k) meta; Ok (txt ++ fr, Z.of_nat k + n)).
+Proof.
+  intros W Hp Hk. unfold frac_suffix.
+  change (2 ^ 62) with 4611686018427387904 in Hp.
+  rewrite !i64_small by lia.
+  rewrite !(go_idx_Z d _ (pos + k)) by lia.
+  rewrite !(go_idx_Z d (Z.of_nat pos + (Z.of_nat k + 1)) (pos + S k)) by lia.
+  rewrite !(go_idx_Z d (Z.of_nat pos + (Z.of_nat k + 2)) (pos + S (S k))) by lia.
+  destruct (meta =? 1) eqn:E1; [apply Z.eqb_eq in E1; subst meta; cbn [Z.eqb Pos.eqb orb]|].
+  2: destruct (meta =? 2) eqn:E2; [apply Z.eqb_eq in E2; subst meta; cbn [Z.eqb Pos.eqb orb]|].
+  3: destruct (meta =? 3) eqn:E3; [apply Z.eqb_eq in E3; subst meta; cbn [Z.eqb Pos.eqb orb]|].
+  4: destruct (meta =? 4) eqn:E4; [apply Z.eqb_eq in E4; subst meta; cbn [Z.eqb Pos.eqb orb]|].
+  5: destruct (meta =? 5) eqn:E5; [apply Z.eqb_eq in E5; subst meta; cbn [Z.eqb Pos.eqb orb]|].
+  6: destruct (meta =? 6) eqn:E6; [apply Z.eqb_eq in E6; subst meta; cbn [Z.eqb Pos.eqb orb]|].
+  7: { cbn [orb bind]. rewrite app_nil_r, Z.add_0_r. reflexivity. }
+  all: rewrite be_at_at_be by lia; cbn [at_be].
+  all: repeat case_at W; try exact I; try lia.
+  all: cbn [app]; apply res_sim_eq; do 4 f_equal.
+  all: unfold go_shl; change (2 ^ 8) with 256; change (2 ^ 16) with 65536; wrap_small; try lia.
+  all: f_equal; lia.
+Qed.
+
+Lemma lor_hi_lo x y k : 0 <= k -> 0 <= y < 2 ^ k -> Z.lor (x * 2 ^ k) y = x * 2 ^ k + y.
+Proof. intros Hk Hy. rewrite Z.lor_comm, lor_low_high by assumption. lia. Qed.
+
+Lemma lor_step s b k k' : 0 <= k -> k' = k + 8 -> 0 <= b < 256 -> Z.lor (s * 2 ^ k') (b * 2 ^ k) = (s * 256 + b) * 2 ^ k.
+Proof.
+  intros Hk -> Hb.
+  assert (P : 0 < 2 ^ k) by (apply Z.pow_pos_nonneg; lia).
+  assert (Q : 2 ^ (k + 8) = 2 ^ k * 256) by (rewrite Z.pow_add_r by lia; reflexivity).
+  rewrite lor_hi_lo; [| lia |].
+  - rewrite Q. ring.
+  - rewrite Q. nia.
+Qed.
+
+Lemma be5_lor a b c e f : 0 <= a < 256 -> 0 <= b < 256 -> 0 <= c < 256 -> 0 <= e < 256 -> 0 <= f < 256 ->
+  Z.lor (Z.lor (Z.lor (Z.lor (go_shl u64 a 32) (go_shl u64 b 24)) (go_shl u64 c 16)) (go_shl u64 e 8)) f
+  = ((((0 * 256 + a) * 256 + b) * 256 + c) * 256 + e) * 256 + f.
+Proof.
+  intros. rewrite !go_shl_u64 by (cbn; lia).
+  rewrite (lor_step a b 24 32) by lia.
+  rewrite (lor_step _ c 16 24) by lia.
+  rewrite (lor_step _ e 8 16) by lia.
+  rewrite lor_hi_lo by (cbn; lia). change (2 ^ 8) with 256. lia.
+Qed.
+
+Lemma be3_lor a b c : 0 <= a < 256 -> 0 <= b < 256 -> 0 <= c < 256 ->
+  Z.lor (Z.lor (go_shl i64 a 16) (go_shl i64 b 8)) c = ((0 * 256 + a) * 256 + b) * 256 + c.
+Proof.
+  intros. unfold go_shl. rewrite !i64_small by (cbn; lia).
+  rewrite (lor_step a b 8 16) by lia.
+  rewrite lor_hi_lo by (cbn; lia). change (2 ^ 8) with 256. lia.
+Qed.
+Lemma be2_lor a b : 0 <= a < 256 -> 0 <= b < 256 ->
+  Z.lor (go_shl i64 a 8) b = (0 * 256 + a) * 256 + b.
+Proof.
+  intros. unfold go_shl. rewrite !i64_small by (cbn; lia).
+  rewrite lor_hi_lo by (cbn; lia). change (2 ^ 8) with 256. lia.
+Qed.
+
+Lemma time2_text sign hms fr : 0 <= hms ->
+  sign ++ fmt_0d 2 (Z.rem (go_shr hms 12) 1024) ++ [58] ++ fmt_0d 2 (Z.rem (go_shr hms 6) 64) ++ [58] ++
+    fmt_0d 2 (Z.rem hms 64) ++ fr
+  = sign ++ (fmt_clock (shr hms 12 mod 1024) (shr hms 6 mod 64) (hms mod 64) ++ fr).
+Proof.
+  intros H. unfold go_shr, shr.
+  assert (0 <= hms / 2 ^ 12) by (apply Z.div_pos; lia).
+  assert (0 <= hms / 2 ^ 6) by (apply Z.div_pos; lia).
+  rewrite !Z.rem_mod_nonneg by lia.
+  unfold fmt_clock. f_equal. rewrite <- !app_assoc. reflexivity.
+Qed.
+
+Lemma dt2_assoc A B C H M S fr :
+  fmt_date A B C ++ [32] ++ fmt_clock H M S ++ fr =
+  ([] ++ (fmt_0d 4 A ++ [45] ++ fmt_0d 2 B ++ [45] ++ fmt_0d 2 C ++ [32] ++ fmt_0d 2 H ++ [58] ++ fmt_0d 2 M ++ [58] ++ fmt_0d 2 S)) ++ fr.
+Proof.
+  unfold fmt_date, fmt_clock. cbn [app]. rewrite <- !app_assoc. cbn [app].
+  repeat (rewrite <- !app_assoc; cbn [app]; f_equal).
+Qed.
 
 Section Cases.
 Variable ffmt : Z -> Z -> bytes.
@@ -13,32 +212,117 @@ Variable jsonp : bytes -> res bytes.
 
 Lemma CellBytes_TypeDate_ok : case_ok ffmt tz jsonp CellBytes_TypeDate_g [10; 14].
 Proof.
-  (* TODO *)
-Admitted.
+  intros d pos typ meta uns W Hin Hm Hp. cbn [In] in Hin.
+  destruct Hin as [<-|[<-|[]]].
+  all: unfold CellBytes_TypeDate_g, cell_bytes; unfold_types; cbn [Z.eqb Pos.eqb orb].
+  all: rewrite ?go_idx_nat; rewrite ?idx_off by (assumption || (cbn; lia)); to_nat_consts.
+  all: rewrite le_at_at_le0 by lia; cbn [at_le]; rewrite ?Nat.add_0_r.
+  all: repeat case_at W; try exact I; try lia.
+  all: rewrite le24_u32 by assumption; reflexivity.
+Qed.
 
 Lemma CellBytes_TypeTime_ok : case_ok ffmt tz jsonp CellBytes_TypeTime_g [11].
 Proof.
-  (* TODO *)
-Admitted.
+  intros d pos typ meta uns W Hin Hm Hp. cbn [In] in Hin.
+  destruct Hin as [<-|[]].
+  unfold CellBytes_TypeTime_g, cell_bytes; unfold_types; cbn [Z.eqb Pos.eqb orb].
+  rewrite ?go_idx_nat; rewrite ?idx_off by (assumption || (cbn; lia)); to_nat_consts.
+  rewrite le_at_at_le0 by lia; cbn [at_le]; rewrite ?Nat.add_0_r.
+  repeat case_at W; try exact I; try lia.
+  rewrite time_val by assumption. cbn [bind].
+  rewrite time_tail by (apply time_val_bound; assumption).
+  cbn [flat]. destruct (_ <? 0); reflexivity.
+Qed.
 
 Lemma CellBytes_TypeDateTime_ok : case_ok ffmt tz jsonp CellBytes_TypeDateTime_g [12].
 Proof.
-  (* TODO *)
-Admitted.
+  intros d pos typ meta uns W Hin Hm Hp. cbn [In] in Hin.
+  destruct Hin as [<-|[]].
+  unfold CellBytes_TypeDateTime_g, cell_bytes; unfold_types; cbn [Z.eqb Pos.eqb orb].
+  change (2 ^ 62) with 4611686018427387904 in Hp.
+  rewrite (i64_small (Z.of_nat pos + 8)) by lia.
+  rewrite (go_slice_le_bind d (Z.of_nat pos) (Z.of_nat pos + 8) 8 _ pos) by (reflexivity || lia).
+  destruct (le_at d pos 8) as [v| |]; cbn [bind flat]; try exact I.
+  unfold fmt_date, fmt_clock. apply res_sim_eq. f_equal. f_equal.
+  rewrite <- !app_assoc. reflexivity.
+Qed.
 
 Lemma CellBytes_TypeTimestamp2_ok : case_ok ffmt tz jsonp (CellBytes_TypeTimestamp2_g (print_timestamp tz)) [17].
 Proof.
-  (* TODO *)
-Admitted.
+  intros d pos typ meta uns W Hin Hm Hp. cbn [In] in Hin.
+  destruct Hin as [<-|[]].
+  unfold CellBytes_TypeTimestamp2_g, cell_bytes; unfold_types; cbn [Z.eqb Pos.eqb orb].
+  assert (Hp' : Z.of_nat pos < 4611686018427387904) by exact Hp.
+  rewrite (go_slice_be_bind d (Z.of_nat pos) (i64 (Z.of_nat pos + 4)) 4 _ pos) by (reflexivity || (rewrite i64_small; lia)).
+  destruct (be_at d pos 4) as [sec| |]; cbn [bind flat]; try exact I.
+  pose proof (frac_equiv d pos 4 meta (print_timestamp tz sec) W Hp ltac:(lia)) as F.
+  destruct (frac_suffix d (pos + 4) meta) as [[fr n]| |]; cbn [bind flat] in *; exact F.
+Qed.
 
 Lemma CellBytes_TypeDateTime2_ok : case_ok ffmt tz jsonp CellBytes_TypeDateTime2_g [18].
 Proof.
-  (* TODO *)
-Admitted.
+  intros d pos typ meta uns W Hin Hm Hp. cbn [In] in Hin.
+  destruct Hin as [<-|[]].
+  unfold CellBytes_TypeDateTime2_g, cell_bytes; unfold_types; cbn [Z.eqb Pos.eqb orb].
+  rewrite be_at_at_be0 by lia; cbn [at_be]; rewrite ?Nat.add_0_r.
+  rewrite go_idx_nat.
+  rewrite (idx_off d pos 1), (idx_off d pos 2), (idx_off d pos 3), (idx_off d pos 4) by (assumption || (cbn; lia)); to_nat_consts.
+  do 5 (case_at W; [|try exact I; repeat case_at W; try exact I; lia]).
+  rewrite be5_lor by assumption.
+  match goal with |- res_sim (if _ then _ else if _ then _ else if _ then _ else if _ then _ else if _ then _ else if _ then _ else Ok (?t, _)) _ =>
+    pose proof (frac_equiv d pos 5 meta t W Hp ltac:(lia)) as F end.
+  destruct (frac_suffix d (pos + 5) meta) as [[fr n]| |]; cbn [bind flat] in *; [|exact F..].
+  rewrite dt2_assoc. exact F.
+Qed.
+
+(* TIME2: one metadata case, after the sign has been decided (h = |hms|) *)
+Ltac t2_fin W :=
+  try (rewrite be_at_at_be by lia); cbn [at_be andb];
+  repeat case_at W; try exact I; try lia;
+  rewrite ?be2_lor, ?be3_lor by assumption;
+  change (0 * 256) with 0; rewrite ?Z.add_0_l;
+  try match goal with |- context [?f =? 0] => let F := fresh "F" in destruct (f =? 0) eqn:F end;
+  cbn [negb bind flat]; wrap_small; apply res_sim_eq; f_equal;
+  (apply f_equal2; [rewrite time2_text by lia; reflexivity | lia]).
+
+Ltac meta_case meta k fin :=
+  let E := fresh "E" in
+  destruct (meta =? k) eqn:E; [apply Z.eqb_eq in E; subst meta; fin | ].
+
+Ltac t2_cases d pos meta W Hp :=
+  unfold time2_frac;
+  change (2 ^ 62) with 4611686018427387904 in Hp;
+  rewrite !(i64_small (Z.of_nat pos + _)) by lia;
+  rewrite !(go_idx_Z d (Z.of_nat pos + 3) (pos + 3)) by lia;
+  rewrite !(go_idx_Z d (Z.of_nat pos + 4) (pos + 4)) by lia;
+  rewrite !(go_idx_Z d (Z.of_nat pos + 5) (pos + 5)) by lia;
+  meta_case meta 1 ltac:(t2_fin W); meta_case meta 2 ltac:(t2_fin W); meta_case meta 3 ltac:(t2_fin W);
+  meta_case meta 4 ltac:(t2_fin W); meta_case meta 5 ltac:(t2_fin W); meta_case meta 6 ltac:(t2_fin W);
+  t2_fin W.
 
 Lemma CellBytes_TypeTime2_ok : case_ok ffmt tz jsonp CellBytes_TypeTime2_g [19].
 Proof.
-  (* TODO *)
-Admitted.
+  intros d pos typ meta uns W Hin Hm Hp. cbn [In] in Hin.
+  destruct Hin as [<-|[]].
+  unfold CellBytes_TypeTime2_g, cell_bytes; unfold_types; cbn [Z.eqb Pos.eqb orb].
+  rewrite be_at_at_be0 by lia; cbn [at_be]; rewrite ?Nat.add_0_r.
+  rewrite go_idx_nat.
+  rewrite (idx_off d pos 1), (idx_off d pos 2) by (assumption || (cbn; lia)); to_nat_consts.
+  do 3 (case_at W; [|try exact I; repeat case_at W; try exact I; lia]).
+  rewrite be3_lor by assumption.
+  set (raw := ((0 * 256 + b) * 256 + b0) * 256 + b1).
+  assert (R : 0 <= raw < 16777216) by (unfold raw; lia).
+  clearbody raw.
+  rewrite (i64_small (raw - 8388608)) by lia.
+  destruct (raw - 8388608 <? 0) eqn:N; cbn [bind bytes_eqb Z.eqb Pos.eqb andb].
+  - (* negative: the magnitude is at least 1, so the borrow of the fractional part keeps it non-negative *)
+    rewrite (i64_small (- (raw - 8388608))) by lia.
+    replace (Z.abs (raw - 8388608)) with (- (raw - 8388608)) by lia.
+    set (h := - (raw - 8388608)). assert (Hh : 1 <= h <= 8388608) by lia. clearbody h. clear N R raw.
+    t2_cases d pos meta W Hp.
+  - replace (Z.abs (raw - 8388608)) with (raw - 8388608) by lia.
+    set (h := raw - 8388608). assert (Hh : 0 <= h <= 8388608) by lia. clearbody h. clear N R raw.
+    t2_cases d pos meta W Hp.
+Qed.
 
 End Cases.
